@@ -151,6 +151,8 @@ namespace cgi {
 			output_content_length_ = -1;
 			output_written_ = 0;
 			eof_callback_ = false;
+			// the header block of the previous response on this connection must not outlive it
+			response_headers_.clear();
 			input_parser_.reset();
 
 			env_.clear();
